@@ -772,6 +772,7 @@ package ro
 
 //@ loop DoWhileIWithContext$1$1#0
 //@   iteration ensures count(source.SubscribeWithContext) == 1 && count(attempt.Wait) == 1 && before(source.SubscribeWithContext, attempt.Wait)
+//@   iteration ensures lastErr == nil && !(completed && !shouldContinue)
 //@   iteration ensures arg(source.SubscribeWithContext, 0) == atiter(currentCtx)
 
 //@ operator WhileIWithContext
